@@ -319,7 +319,8 @@ def handleBuiltin (s : State) (pid index : Nat) (exists_ : Bool) : State × Out 
   if !exists_ then (s, .fail)
   else (bump (pushValue s pid (.builtin index)) pid, .ok)
 
-/-- `handle_equal`; `eqv` = `values_equal`. (`count = 0` would index `values[0]` out of range; the
+/-- `handle_equal`; `eqv` = `values_equal`. The result is a verdict: `Ok` or nil (since 6e33e91 the
+compared value itself is no longer pushed). (`count = 0` would index `values[0]` out of range; the
 compiler never emits it: modelled as failure.) -/
 def handleEqual (s : State) (pid count : Nat) (eqv : State → Val → Val → Bool) : State × Out :=
   if count > (stackOf s pid).length ∨ count = 0 then (s, .fail)
@@ -330,7 +331,7 @@ def handleEqual (s : State) (pid count : Nat) (eqv : State → Val → Val → B
       match vs.reverse with
       | [] => (s, .fail)
       | first :: rest =>
-        let result := if (first :: rest).all (eqv s first) then first else Val.nil
+        let result := if (first :: rest).all (eqv s first) then Val.ok else Val.nil
         (bump (pushValue s pid result) pid, .ok)
 
 /-- `handle_not` -/
@@ -417,11 +418,16 @@ def handleSend (s : State) (pid : Nat) : State × Out :=
         | .proc targetPid _ => (bump (rawPushTransit s pid 0) pid, .act (.deliver targetPid message))
         | _ => (dropTransit s 0, .fail)
 
-/-- `handle_self`; fails with `FrameUnderflow` without frames -/
-def handleSelf (s : State) (pid : Nat) : State × Out :=
-  match (framesOf s pid).getLast? with
-  | none => (s, .fail)
-  | some first => (bump (rawPush s pid (.proc pid first.fn)) pid, .ok)
+/-- `handle_self`; `startedWith = process_function_indices.get(&pid)` (since 4f13f02 the handle
+names the function the process was started with); without it, the first frame's function, failing
+with `FrameUnderflow` when there is no frame -/
+def handleSelf (s : State) (pid : Nat) (startedWith : Option Nat) : State × Out :=
+  match startedWith with
+  | some index => (bump (rawPush s pid (.proc pid index)) pid, .ok)
+  | none =>
+    match (framesOf s pid).getLast? with
+    | none => (s, .fail)
+    | some first => (bump (rawPush s pid (.proc pid first.fn)) pid, .ok)
 
 /-- `handle_process_ref` -/
 def handleProcessRef (s : State) (pid processId functionIndex : Nat) : State × Out :=
